@@ -9,7 +9,7 @@ REQUIRED = ["DaeVerif.C08.Props." + n for n in [
     "janitor_time_step", "janitor_keeps", "janitor_evicts_least_recently_used", "heap_selects_oldest",
     "lookup_and_insert_stamp_last_access", "cfg_in_force", "fresh_served", "latest_insert_wins", "removed_is_gone",
     "latch_is_per_object_and_released_per_key", "request_key_injective", "request_key_class_IN",
-    "request_touches_only_its_key", "entry_ttl_is_minimum_over_answers",
+    "request_touches_only_its_key", "entry_ttl_is_minimum_over_answers", "reject_purges_every_scope",
 ]]
 
 
@@ -85,6 +85,26 @@ def dnscfg_overlay(ctx, fallback=False):
             os.path.join(REPO, "control", "zz_verif_c08shim.go"): shim}, mode
 
 
+SCHED_HOOKS = ["dnscache.lookup.start", "dnscache.lookup.afterLoad", "dnscache.insert.beforeStore",
+               "dnscache.rdone.start", "dnscache.rdone.afterLoad", "dnscache.rdone.beforeMark",
+               "dnscache.janitor.start", "dnscache.janitor.afterLoad"]
+# The yield points are proposed in design_notes/C08.hooks.patch.  Until they are part of /repo the
+# schedule replay is skipped (said in the evidence); once committed, set this to True: their absence then
+# means the code changed shape and the step-by-step tie of Conc.lean is gone.
+SCHED_HOOKS_REQUIRED = True
+
+
+def sched_hooks_present():
+    from verifkit import REPO
+    src = ""
+    for f in ("dns_control.go", "dns_control_optimistic.go"):
+        try:
+            src += open(os.path.join(REPO, "control", f)).read()
+        except OSError:
+            pass
+    return [h for h in SCHED_HOOKS if 'verifYield("%s"' % h in src]
+
+
 def arms_floor(ctx):
     # the hammer stops at its time budget on a slow box: fewer releases than this did not test much
     return 20000
@@ -115,13 +135,25 @@ def run(ctx):
     ctx.prove(["DaeVerif.C08.Props"], ["DaeVerif.C08.Props"], ["DaeVerif/C08/*.lean"], extra_targets=["c08drv"])
     ctx.required_theorems(REQUIRED)
 
+    hooks = sched_hooks_present()
+    sched = len(hooks) == len(SCHED_HOOKS)
+    files = ["control/c08_test.go"] + (["control/c08_sched_test.go"] if sched else [])
+    tags = "dae_stub_ebpf,verif" if sched else "dae_stub_ebpf"
     ov, mode = dnscfg_overlay(ctx)
-    binp = ctx.go_test_build("control", ["control/c08_test.go"], "c08", extra_overlay=ov)
+    binp = ctx.go_test_build("control", files, "c08", tags=tags, extra_overlay=ov)
     if not binp:
         ov, mode = dnscfg_overlay(ctx, fallback=True)
-        binp = ctx.go_test_build("control", ["control/c08_test.go"], "c08", extra_overlay=ov)
+        binp = ctx.go_test_build("control", files, "c08", tags=tags, extra_overlay=ov)
     if not binp:
         return 2
+    if sched:
+        ctx.cov["schedule_replay"] = "enabled (yield points dnscache.* present in /repo)"
+    else:
+        ctx.cov["schedule_replay"] = ("skipped: yield points not in /repo (design_notes/C08.hooks.patch); missing: "
+                                      + ",".join(h for h in SCHED_HOOKS if h not in hooks))
+        if SCHED_HOOKS_REQUIRED:
+            ctx.proof_failures.append("yield points missing from /repo, schedule replay of Conc.lean impossible: "
+                                      + ",".join(h for h in SCHED_HOOKS if h not in hooks))
     ctx.cov["dns_section_recording_statements"] = mode
     rc, out = ctx.run_harness(binp, "TestVerifC08")
     ops, impl, model = (os.path.join(ctx.out, "c08." + e) for e in ("ops", "impl", "model"))
@@ -131,6 +163,34 @@ def run(ctx):
     if not ctx.driver("c08drv", ops, model):
         ctx.proof_failures.append("model driver c08drv failed to run")
     mism = ctx.diff_streams(ops, impl, model, "c08", canon=lambda l: "cov" if l.startswith("cov") else l)
+    sched_lines = 0
+    sched_stats = {}
+    if sched:
+        rc, out = ctx.run_harness(binp, "TestVerifC08Sched")
+        sops, simpl, smodel = (os.path.join(ctx.out, "c08sched." + e) for e in ("ops", "impl", "model"))
+        if rc != 0 or not os.path.exists(sops):
+            ctx.say("HARNESS-FAILED", out[-3000:])
+            return 2
+        if not ctx.driver("c08drv", sops, smodel):
+            ctx.proof_failures.append("model driver c08drv failed to run on the schedule stream")
+        smism = ctx.diff_streams(sops, simpl, smodel, "c08sched")
+        s_ops, s_impl = read_lines(sops), read_lines(simpl)
+        sched_lines = len(s_ops)
+        for ln, op, im, mo in smism[:5]:
+            i = ln - 1
+            j = i
+            while j > 0 and not s_ops[j].startswith("cinit "):
+                j -= 1
+            ctx.report(f"schedule replay: the real code differs from the transition system of Conc.lean at line {ln}: "
+                       f"step `{op}` impl `{im}` model `{mo}`",
+                       {"stream": "c08sched", "line": ln, "op": op, "impl": im, "model": mo,
+                        "schedule_since_cinit": list(zip(s_ops[j:i + 1], s_impl[j:i + 1]))[-60:],
+                        "replay": "VERIF_SEED=%d ./check C08 %s" % (ctx.seed, ctx.tier)})
+        for im in s_impl:
+            if "crash:" in im:
+                ctx.report(f"real code panicked during schedule replay: {im}", {"impl": im})
+        sched_stats = json.load(open(os.path.join(ctx.out, "c08sched.stats.json")))["counters"]
+        ctx.cov["schedule_replay_distribution"] = sched_stats
     model_lines = read_lines(model)
     for l in model_lines[-3:]:
         if l.startswith("cov "):
@@ -257,7 +317,19 @@ def run(ctx):
                  "lookup.when.fresh_last_ns": 25, "lookup.when.expired_first_ns": 40, "lookup.when.window_end_plus_1ns": 12,
                  "insert.access_callback_fails": 40, "op.self_restore": 50, "race.latch_releases_hammered": 20000,
                  "insert.reply_class_not_IN": 40, "key.class_not_IN": 100, "insert.not_cacheable_reply": 200,
-                 "janitor.evicted_by_real_ticker": 200, "history.ignore_fixed_ttl_heavy": 12}
+                 "janitor.evicted_by_real_ticker": 200, "history.ignore_fixed_ttl_heavy": 12,
+                 # request path: routes, faults, concurrency (phase 3)
+                 "ask.route.up": 300, "ask.route.reject": 150, "ask.route.redial_second_upstream": 50,
+                 "ask.route.response_routing_drops_answers": 80, "ask.fault.upstream_exchange_fails": 25,
+                 "ask.fault.no_dialer": 20, "ask.fault.upstream_answers_another_question": 25,
+                 "ask.fault.client_gone_at_write": 20, "ask.refresh_failed": 4, "ask.forward_failed": 50,
+                 "ask.reject_purged_entries": 10, "ask.simultaneous_requests_to_different_resolvers": 50,
+                 "ask.reload_with_changed_routing": 60, "dnscfg.from_text": 40,
+                 "reply.min_ttl_last": 300, "reply.min_ttl_middle": 100, "reply.min_ttl_first": 150,
+                 "reply.answer_records=9_or_more": 150, "insert.ttl_at_one_year_clamp_or_uint32_max": 150,
+                 "cfg.fixed_ttl_written_in_another_base": 40}
+    if not stats["counters"].get("race.evict_hammer_skipped_fewer_than_3_cpus"):
+        floors_in["race.fresh_answers_stored_under_eviction_fire"] = 1500
     floors_br = {"fresh.packed_exact": 80, "fresh.packed_within_slack": 500, "fresh.packed_slack_exactly_15": 50,
                  "fresh.repacked": 300, "fresh.fallback_unpackable": 120, "fresh.fallback_packed_path_expired": 12,
                  "stale.first_triggers_refresh": 250, "stale.refresh_already_in_flight": 120,
@@ -276,6 +348,13 @@ def run(ctx):
         if counters.get("race.latch_releases_hammered", 0) < arms_floor(ctx):
             floors_in["race.latch_releases_hammered"] = arms_floor(ctx)
     low = [f"{k}={counters.get(k, 0)}<{v}" for k, v in floors_in.items() if counters.get(k, 0) < v]
+    if sched:
+        floors_sched = {"sched.histories": 300, "sched.steps": 2500, "sched.thread.lookup": 400,
+                        "sched.thread.refresh_cleanup": 150, "sched.thread.janitor": 60,
+                        "sched.thread.insert_stale": 150, "sched.thread.insert_dead": 60, "sched.thread.insert_fresh": 60}
+        low += [f"{k}={sched_stats.get(k, 0)}<{v}" for k, v in floors_sched.items() if sched_stats.get(k, 0) < v]
+        if sched_stats.get("sched.inconclusive_history", 0) >= 5:
+            low.append("sched.inconclusive_history>=5 (the machine did not schedule the goroutines)")
     br = ctx.cov.get("model_branch_coverage", {})
     low += [f"{k}={br.get(k, 0)}<{v}" for k, v in floors_br.items() if br.get(k, 0) < v]
     ctx.cov["generator_floors"] = {"inputs": floors_in, "model_branches": floors_br, "below": low,
@@ -295,4 +374,4 @@ def run(ctx):
     return ctx.finish(rule="one evaluation = one operation line (key/ins/insn/look/clook/jan/reload/reconf/rdone/rm/rmfam/keys/heap/sift) "
                            "executed by the real DnsController under virtual time and by the Lean model; distinct_nontrivial counts "
                            "distinct (operation without clock value, implementation answer) pairs",
-                      evaluations=len(op_lines), distinct=len(distinct))
+                      evaluations=len(op_lines) + sched_lines, distinct=len(distinct))
